@@ -37,6 +37,8 @@ type WorkerSpec struct {
 	// process (every minimisation is hundreds of bubbles, and a process slows down with
 	// every bubble it has ever run).
 	MinOncePrefixes []string `json:"min_once_prefixes"`
+	// GenSeed: generate exactly this run (the seed a report names) instead of a range of indices.
+	GenSeed uint64 `json:"gen_seed"`
 }
 
 var minimisedOnce = map[string]bool{}
@@ -104,6 +106,17 @@ func TestWorker(t *testing.T) {
 			t.Fatalf("unknown profile %q", n)
 		}
 		ps = append(ps, p)
+	}
+	if spec.GenSeed != 0 {
+		rr := RunOne(t, ps[0], RunOpts{Seed: spec.GenSeed, KeepLog: spec.KeepLog})
+		if rr.Violation != nil && spec.Minimise {
+			rr = MinimiseN(t, ps[0], rr, spec.MinBudgetSec, spec.MinCandidates)
+			if spec.ReplayDir != "" {
+				rr.ReplayPath = WriteReplay(spec.ReplayDir, rr)
+			}
+		}
+		_ = enc.Encode(rr)
+		return
 	}
 	stride := spec.Stride
 	if stride <= 0 {
